@@ -175,7 +175,8 @@ Definition frontend_exact (be : bemap) (s : svc) (eps : list ep) (kd : kind) (fv
     /\ fv_aff fv = s_sticky s
     /\ flag_ok (ext_local_required kd s) (fv_flags fv) FLG_EXT_LOCAL = true
     /\ flag_ok (int_local_required kd s) (fv_flags fv) FLG_INT_LOCAL = true
-    /\ (has_flag (fv_flags fv) FLG_MAGLEV = true -> s_maglev s = true).
+    /\ (has_flag (fv_flags fv) FLG_MAGLEV = true -> s_maglev s = true)
+    /\ has_flag (fv_flags fv) FLG_EXCLUDE = s_exclude s.
 
 Lemma final_exact_full : forall cfg ops d0 states sy d st v fF fB tr sy' d',
   c_reset cfg = true -> consistent (fst d0) (snd d0) ->
@@ -203,7 +204,7 @@ Proof.
     destruct (lookup fkey_eqb (fst d') k) as [fv|] eqn:E; [|congruence].
     destruct (A k fv E) as [u' [Hu' [Hin' [I1 [I2 [I3 I4]]]]]].
     destruct (unit_frontend_unique _ _ _ _ _ _ _ _ _ _ _ _ W VV VA Hu' Hu Hin' Hin) as [-> ->].
-    exists fv0. split; auto. destruct M as [M1 [M2 [M3 [M4 M5]]]].
+    exists fv0. split; auto. destruct M as [M1 [M2 [M3 [M4 [M5 M6]]]]].
     exists (u_eps u). split; auto. split; [rewrite I2; reflexivity|]. split; [rewrite I3; reflexivity|].
     split; [|auto]. intros i Hi. rewrite I1. apply D; auto. rewrite <- I2. auto.
   - intros k H. eapply frontend_keys_exact; eauto.
